@@ -199,7 +199,11 @@ func runOne(body Body, prefix []int, strict bool) (x *Exec) {
 	}()
 	body(c)
 	if len(c.choices) < len(prefix) {
-		panic(HarnessError{fmt.Sprintf("replay divergence: execution ended after %d choice points, prefix has %d", len(c.choices), len(prefix))})
+		tr := c.trace
+		if len(tr) > 6 {
+			tr = tr[len(tr)-6:]
+		}
+		panic(HarnessError{fmt.Sprintf("replay divergence: execution ended after %d choice points, prefix has %d (prefix %s)\n%s", len(c.choices), len(prefix), ChoicesString(prefix), strings.Join(tr, "\n"))})
 	}
 	if c.fail != nil {
 		c.fail.Choices = append([]int{}, c.choices...)
